@@ -1,13 +1,13 @@
 CONSTANTS
-  MaxItems = 3
+  MaxItems = 5
   ChunkSize = 2
   QueryCacheMax = 1
-  MaxEdits = 2
+  MaxEdits = 1
   Queries = {"", "a", "b", "ab"}
-  MaxReloads = 1
-  TailN = 0
-  BumpOnTrim = TRUE
+  MaxReloads = 0
+  TailN = 3
+  BumpOnTrim = FALSE
   AllowOlder = FALSE
 SPECIFICATION Spec
-INVARIANTS NeverStale
+INVARIANTS PublishedIsFilter
 CHECK_DEADLOCK FALSE
